@@ -42,12 +42,20 @@ def sel(pool, i):
 
 
 def query_expr(style: int, nparams: int, split: int, first: str = "name"):
-    """The query expression.  style: 0 `+` concatenation, 1 f-string, 2 printf `%`, 3 str.format;
+    """The query expression.  style: 0 `+` concatenation, 1 f-string, 2 printf `%`, 3 str.format, 4 one operand per line inside parentheses;
     split: 0 every literal piece in one literal where the style allows, 1 adjacent literals (implicit concatenation),
     2 literals joined with an explicit `+`."""
     names = [first, "phone", "other"][:nparams]
     seps = [HEAD, MID, MID2][:nparams] + [TAIL]
-    st = style % 4
+    st = style % 5
+    if st == 4:
+        # formatter style: one operand per line inside parentheses, with a non-injectable piece in the middle; with
+        # split == 1 the closing quote is a literal of its own, which the rewrite empties
+        lines_ = ['"SELECT id FROM users WHERE id > "', "+ str(0)", '+ " AND name = \'"', "+ " + names[0]]
+        for i, n in enumerate(names[1:], start=1):
+            lines_ += ['+ "%s"' % seps[i], "+ " + n]
+        lines_ += ['+ "\'"', '+ " ORDER BY id"'] if split % 3 != 1 else ['+ "\'"']
+        return "(\n" + "".join("        %s\n" % l for l in lines_) + "    )"
     if st == 0:
         parts = []
         for i, n in enumerate(names):
